@@ -45,6 +45,21 @@ class K1Key:
         return sigencode_der(r, s, N1)
 
 
+def sign_short(key, msg, tweak=None):
+    """a VALID signature whose DER form is unusually short: nonce 1/2 mod n gives an r of 166 bits"""
+    d = key.sk.privkey.secret_multiplier
+    if tweak is not None:
+        t = int.from_bytes(hmac.new(tweak, key.pub(), hashlib.sha256).digest(), "big")
+        d = (d + t) % N1
+    sk = ecdsa.SigningKey.from_secret_exponent(d, curve=ecdsa.SECP256k1)
+    k = pow(2, -1, N1)
+    sig = sk.sign_digest(hashlib.sha256(msg).digest(), sigencode=ecdsa.util.sigencode_string, k=k)
+    r, s = ecdsa.util.sigdecode_string(sig, N1)
+    if s > N1 // 2:
+        s = N1 - s
+    return sigencode_der(r, s, N1)
+
+
 def k1_verify(pub65, msg, sig_der, tweak=None):
     """Independent verdict of a v1 link (ecdsa package + own tweak arithmetic), libsecp256k1's
     conventions: strict DER, low-S only."""
@@ -190,6 +205,18 @@ def v1_corruptions(rng, doc, keys):
     msg = bytes.fromhex(d["elements"][1]["message"])
     d["elements"][1]["signature"] = keys["root"].sign(msg, low_s=False).hex()
     out.append(("high-s-device", d, root_pub))
+    # deeper chains than the usual three levels: the signer certified by the ui element (whose message
+    # is no key at all) and an attestation certified by the ui (four elements on the signer's path)
+    d = copy.deepcopy(doc)
+    d["elements"][3]["signed_by"] = "ui"
+    out.append(("reparent-signer-under-ui", d, root_pub))
+    # perfectly valid signatures that are shorter than usual (small r)
+    for idx, signer_key, tw in ((1, keys["root"], None), (0, keys["device"], None),
+                                (2, keys["attestation"], bytes.fromhex(doc["elements"][2]["tweak"]))):
+        d = copy.deepcopy(doc)
+        d["elements"][idx]["signature"] = sign_short(signer_key, bytes.fromhex(d["elements"][idx]["message"]),
+                                                     tw).hex()
+        out.append(("short-valid-signature-%s" % d["elements"][idx]["name"], d, root_pub))
     # attestation messages of other lengths: the certified key is everything after the first byte
     att_k, dev_k = keys["attestation"], keys["device"]
     for label, att_msg in (("attmsg-two-byte-prefix", b"\xff\xff" + att_k.pub()),
